@@ -16,15 +16,15 @@ M63  == WNot(WMinInt(W))                             \* 0x7fffffffffffffff
 U32  == WFromDigits(W, 16, <<15, 15, 15, 15, 15, 15, 15, 15>>, WZero(W))
 K1   == WFromDigits(W, 16, <<1, 2, 3, 4, 5, 6, 7, 8, 9, 10, 11, 12, 13, 14, 15, 1>>, WZero(W))
 
-TupleA == <<P(7), P(5), P(3), P(2), P(11), P(13)>>
-TupleB == <<P(1000003), P(3), P(65537), P(5), P(257), P(2)>>
-TupleC == <<M63, P(2), U32, P(3), B63, P(1)>>
-TupleD == <<K1, P(17), WNeg(P(9)), P(4), WOnes(W), P(6)>>
-TupleE == <<P(1), P(0), P(2), P(0), P(3), P(1)>>
+TupleA == <<P(7), P(5), P(3), P(2), P(11), P(13), P(17)>>
+TupleB == <<P(1000003), P(3), P(65537), P(5), P(257), P(2), P(19)>>
+TupleC == <<M63, P(2), U32, P(3), B63, P(1), P(5)>>
+TupleD == <<K1, P(17), WNeg(P(9)), P(4), WOnes(W), P(6), P(3)>>
+TupleE == <<P(1), P(0), P(2), P(0), P(3), P(1), P(2)>>
 \* seed-dependent small operands (all distinct, 1..61)
 TupleS == LET s == Seed % 9973 IN
           <<P(2 + (s % 53)), P(3 + ((s \div 7) % 41)), P(2 + ((s \div 3) % 29)),
-            P(1 + ((s \div 11) % 7)), P(5 + ((s \div 13) % 59)), P(1 + ((s \div 17) % 5))>>
+            P(1 + ((s \div 11) % 7)), P(5 + ((s \div 13) % 59)), P(1 + ((s \div 17) % 5)), P(2 + ((s \div 19) % 31))>>
 GenTuples == {TupleA, TupleB, TupleC, TupleD, TupleE, TupleS}
 QuickTuples == {TupleA, TupleC, TupleS}
 
